@@ -542,6 +542,27 @@ func (c *Ctx) alwaysMoves() (map[*ssa.Function]bool, map[*ssa.Function]string) {
 					if sc := staticCallee(x); sc != nil && sc.Parent() == fn && closureMoves(sc) {
 						o = true
 					}
+					// `proceed, refuse := es.NEXT, es.BACKTRACK; ...; proceed()`: a call of a method value, every candidate of which is a
+					// base mover bound to the state
+					if ci, ok := x.(ssa.CallInstruction); ok && ci.Common().StaticCallee() == nil && !ci.Common().IsInvoke() {
+						leaves := phiLeaves(ci.Common().Value, nil)
+						all := len(leaves) > 0
+						for _, l := range leaves {
+							mc, ok := l.(*ssa.MakeClosure)
+							if !ok {
+								all = false
+								break
+							}
+							f, _ := mc.Fn.(*ssa.Function)
+							if f == nil || !strings.HasSuffix(f.Name(), "$bound") || !base[strings.TrimSuffix(f.Name(), "$bound")] || len(mc.Bindings) != 1 || !stateVal(mc.Bindings[0]) {
+								all = false
+								break
+							}
+						}
+						if all {
+							o = true
+						}
+					}
 					if sc := staticCallee(x); sc != nil && len(x.(ssa.CallInstruction).Common().Args) > 0 && stateVal(x.(ssa.CallInstruction).Common().Args[0]) {
 						if base[sc.Name()] && moves[sc] || (moves[sc] && !base[sc.Name()]) {
 							o = true
@@ -1920,7 +1941,18 @@ func ruleConsumingLoopsStopAtEOF(c *Ctx, rule string) {
 		x, y := exprStr(b.X), exprStr(b.Y)
 		off := func(s string) bool { return strings.HasSuffix(s, ".currentFileOffset") }
 		size := func(s string) bool { return strings.HasSuffix(s, ".reader.Size()") }
-		return (off(x) && size(y)) || (off(y) && size(x))
+		if (off(x) && size(y)) || (off(y) && size(x)) {
+			return true
+		}
+		// a position kept in a record of its own (`s.offset == s.es.reader.Size()`): a comparison of something that is not a
+		// constant with the size of the reader
+		sizeFn := c.Method("files", "Reader", "Size")
+		isSize := func(v ssa.Value) bool {
+			call, ok := v.(*ssa.Call)
+			return ok && sizeFn != nil && call.Call.StaticCallee() == sizeFn
+		}
+		isConst := func(v ssa.Value) bool { _, ok := v.(*ssa.Const); return ok }
+		return (isSize(b.X) && !isConst(b.Y)) || (isSize(b.Y) && !isConst(b.X))
 	}
 	var fnHasEOFTestD func(f *ssa.Function, depth int) bool
 	fnHasEOFTestD = func(f *ssa.Function, depth int) bool {
@@ -1988,11 +2020,12 @@ func ruleConsumingLoopsStopAtEOF(c *Ctx, rule string) {
 					ok = true
 					continue
 				}
-				if !exits {
-					continue
-				}
-				if call, isCall := iff.Cond.(*ssa.Call); isCall {
-					// the exit predicate is a call: every function it can resolve to must test for the end of input
+				if call, isCall := iff.Cond.(*ssa.Call); isCall || exits {
+					if !isCall {
+						continue
+					}
+					// the exit predicate (or a short-circuit operand of it) is a call: every function it can resolve to must test for
+					// the end of input
 					var callees []*ssa.Function
 					if sc := call.Call.StaticCallee(); sc != nil {
 						callees = append(callees, sc)
@@ -2022,7 +2055,7 @@ func ruleConsumingLoopsStopAtEOF(c *Ctx, rule string) {
 					}
 					if all {
 						ok = true
-					} else {
+					} else if exits {
 						unknown = append(unknown, missing...)
 					}
 				}
